@@ -124,6 +124,7 @@ fn c02(quick: bool) -> PropRun {
     let dev = if quick { 6 } else { 10 };
     let mut scs = from_pool(quick, "C02", oracles | O_C01);
     scs.extend(peer_stream_scenarios("C02", quick, O_C02S | O_C01 | O_DEADLINE));
+    scs.push(full_turn_scenario("C02", oracles | O_C01));
     for cfg in grid.iter() {
         if quick && !(cfg.pwin == 4 || (cfg.pwin == 4096 && cfg.pbase[0] == 0)) { continue; }
         for (name, ops) in mixed_scripts() {
@@ -182,6 +183,25 @@ pub fn peer_stream_scenarios(prop: &str, quick: bool, oracles: u32) -> Vec<Scena
         }
     }
     scs
+}
+
+/// A whole turn of the 20-bit packet id space inside one connection: a Reliable packet on channel 2, then 2^20 tiny Unreliable packets on
+/// other channels (2100 per round, the window never empty), then - while the packet that now carries the Reliable packet's old id is
+/// still in the window - the next packets on channel 2. Whatever the sender remembers about a channel's last Reliable packet must not
+/// be mistaken for the packet that carries the same id one turn later.
+pub fn full_turn_scenario(prop: &str, oracles: u32) -> Scenario {
+    use SendMode::*;
+    let per_round = 2100usize; let rounds = (1usize << 20) / per_round + 1;
+    let mut ops: Vec<Op> = vec![send(0, 0, 2, Reliable, 20)];
+    // the last burst ends exactly one turn after the Reliable packet (ids p+1 ..= p+2^20-1), the packets of channel 2 follow in the same round
+    let total = (1usize << 20) - 1;
+    for k in 0..total { ops.push(send(1 + k / per_round, 0, (k % 2) as u8, Unreliable, 8)); }
+    let last = 1 + (total - 1) / per_round;
+    ops.push(send(last, 0, 2, Unreliable, 30)); ops.push(send(last, 0, 2, Reliable, 31)); ops.push(send(last + 1, 0, 2, Persistent, 32)); ops.push(send(last + 2, 0, 0, Reliable, 33));
+    let _ = rounds;
+    let si = Arc::new(ScriptInfo::new(crate::lwprops::warm(&ops, 30)));
+    let env = LwEnv { fates: FATES_NONE, deltas: &[20], dev_rounds: 0, dev_start: 0, max_rounds: 30 + last + 3000, skip_choice: false, flush_choice: false, blackouts: &[], stop_when_idle: true, fair_delta: 20, slow_after: usize::MAX, slow_delta: 250, fuel: 20_000_000, shifts: &[] };
+    spec(&format!("{}.full-turn-of-the-packet-id-space", prop), &LwCfg { pwin: 4096, fwin: 4096, latency: 1, ..LwCfg::small() }, &si, env, 0, oracles)
 }
 
 fn c05(quick: bool) -> PropRun {
@@ -447,6 +467,9 @@ fn c11(quick: bool) -> PropRun {
         ("alloc-exhausted", (0..5).map(|i| send(0, 0, 0, if i % 2 == 0 { Reliable } else { Unreliable }, 2000 + i)).collect(), LwCfg { pwin: 8, fwin: 8, rx_alloc: [30_000, 3 * FRAG], ..LwCfg::small() }),
         ("default-windows-stream", (0..16).map(|i| send(i / 2, i % 2, (i % 3) as u8, MODES[i % 4], 700 + 100 * i)).collect(), LwCfg { pwin: 4096, fwin: 4096, ..LwCfg::small() }),
         ("idle-before-fault", vec![send(0, 0, 0, Reliable, 20)], LwCfg { pwin: 4, fwin: 8, ..LwCfg::small() }),
+        // the peer is itself busy sending large frames at a low rate (its send allocation is negative most of the time) while this side's
+        // window is full of lost packets and only sync frames can reopen it
+        ("sync-to-a-busy-low-rate-peer", (0..8).map(|i| send(i / 4, 0, (i % 2) as u8, Unreliable, 40 + i)).chain((0..((probe_round + 2000) / 40)).map(|k| send(40 * k, 1, 2, Unreliable, 1400))).collect(), LwCfg { pwin: 4, fwin: 8, bw: [2_000_000, 1500], ..LwCfg::small() }),
         // the peer streams small packets (10 per second) for the whole run: this side owes acknowledgements all the time
         ("reverse-stream", (0..4).map(|i| send(i, 0, 0, Reliable, 1400)).chain((0..((probe_round + T_LIVE_ROUNDS - 1000) / 5)).map(|k| send(5 * k, 1, 1, Unreliable, 20))).collect(), LwCfg { pwin: 4096, fwin: 4096, ..LwCfg::small() }),
     ];
